@@ -2,6 +2,8 @@ package props
 
 import (
 	"fmt"
+	"go/token"
+	"go/types"
 	"sort"
 
 	"golang.org/x/tools/go/ssa"
@@ -10,6 +12,8 @@ import (
 )
 
 func init() { register("C09", "other", c09) }
+
+const pkgSPEnum = "0chain.net/smartcontract/stakepool/spenum"
 
 
 // ledgerTypes: objects of these types live in the state trie and carry token amounts.
@@ -72,6 +76,7 @@ func c09(r *core.Report, p *core.Prog, thorough bool) {
 	r.Floor("C09.persist", "storage-contract functions that obtain and change a ledger object", nF, 20)
 	c09Deposits(r, p)
 	c09ExactDebits(r, p)
+	c09RewardBacked(r, p)
 }
 
 // ---------------------------------------------------------------------------------
@@ -254,4 +259,266 @@ func c09ExactDebits(r *core.Report, p *core.Prog) {
 		}
 	}
 	r.Floor("C09.exact-debit", "ledger debits by an accumulated total", n, 1)
+}
+
+// ---------------------------------------------------------------------------------
+// C09.reward-backed: a reward credited to a stake pool is debited somewhere
+// ---------------------------------------------------------------------------------
+
+// coinTerms: the values summed into v through currency.AddCoin / phis.
+func coinTerms(v ssa.Value, seen map[ssa.Value]bool, out *[]ssa.Value) {
+	if seen[v] || len(seen) > 64 {
+		return
+	}
+	seen[v] = true
+	switch x := v.(type) {
+	case *ssa.Phi:
+		for _, e := range x.Edges {
+			coinTerms(e, seen, out)
+		}
+		return
+	case *ssa.Extract:
+		if c, ok := x.Tuple.(*ssa.Call); ok && x.Index == 0 && core.CalleeName(c.Common()) == pkgCurr+".AddCoin" {
+			coinTerms(c.Call.Args[0], seen, out)
+			coinTerms(c.Call.Args[1], seen, out)
+			return
+		}
+	case *ssa.BinOp:
+		if x.Op == token.ADD {
+			coinTerms(x.X, seen, out)
+			coinTerms(x.Y, seen, out)
+			return
+		}
+	case *ssa.Convert:
+		coinTerms(x.X, seen, out)
+		return
+	case *ssa.UnOp:
+		// a local spilled to a cell
+		if al, ok := x.X.(*ssa.Alloc); ok && x.Op == token.MUL {
+			for _, sv := range core.StoresTo(al) {
+				coinTerms(sv, seen, out)
+			}
+			return
+		}
+	}
+	*out = append(*out, v)
+}
+
+func c09RewardBacked(r *core.Report, p *core.Prog) {
+	r.Rule("C09.reward-backed", "the amount handed to DistributeRewards in the storage contract is (a) the amount by which the same function debits a ledger field, (b) a term of the Coin the function returns on every success exit after the call (the caller debits what is returned), or (c) a DistributeCoin share / remainder unit of such an amount; block rewards (minted) are exempt by reward type")
+	n := 0
+	for _, fn := range p.FuncsIn(pkgStorage) {
+		if isTooling(p, fn) || fn.Blocks == nil {
+			continue
+		}
+		var calls []*ssa.Call
+		for _, b := range fn.Blocks {
+			for _, in := range b.Instrs {
+				if c, ok := in.(*ssa.Call); ok && core.MethodName(c.Common()) == "DistributeRewards" && len(c.Call.Args) >= 5 {
+					calls = append(calls, c)
+				}
+			}
+		}
+		if len(calls) == 0 {
+			continue
+		}
+		// debits of Coin fields in this function
+		var debited []ssa.Value
+		for _, b := range fn.Blocks {
+			for _, in := range b.Instrs {
+				st, ok := in.(*ssa.Store)
+				if !ok {
+					continue
+				}
+				fa, ok := st.Addr.(*ssa.FieldAddr)
+				if !ok || !isCoin(derefType(fa.Type())) {
+					continue
+				}
+				if c, idx := core.CallOf(st.Val); c != nil && idx == 0 && core.CalleeName(c.Common()) == pkgCurr+".MinusCoin" {
+					debited = append(debited, c.Call.Args[1])
+				}
+				if bo, ok := st.Val.(*ssa.BinOp); ok && bo.Op == token.SUB {
+					debited = append(debited, bo.Y)
+				}
+			}
+		}
+		backed := func(v ssa.Value, at *ssa.Call) (bool, string) {
+			for _, d := range debited {
+				if d == v || exprEqual(d, v, 0) {
+					return true, "debited in the same function"
+				}
+			}
+			// (b) returned
+			res := fn.Signature.Results()
+			if res.Len() >= 1 && isCoin(res.At(0).Type()) {
+				all, some := true, false
+				for _, ret := range core.SuccessExits(fn) {
+					if ret.Block() == fn.Recover || !core.Reaches(at, ret) {
+						continue
+					}
+					some = true
+					var terms []ssa.Value
+					coinTerms(core.ResultValue(ret, 0), map[ssa.Value]bool{}, &terms)
+					has := false
+					for _, t := range terms {
+						if t == v || exprEqual(t, v, 0) {
+							has = true
+						}
+					}
+					if !has {
+						all = false
+					}
+				}
+				if some && all {
+					if ok, where := c09ReturnDebited(p, fn, 0); !ok {
+						return false, "returned, but a caller drops the returned amount without debiting anything: " + where
+					}
+					return true, "a term of the returned amount on every success exit, which every caller debits"
+				}
+			}
+			return false, ""
+		}
+		for i, c := range calls {
+			n++
+			key := fmt.Sprintf("%s:reward#%d", fn.String(), i+1)
+			// reward type: block rewards are minted
+			if len(c.Call.Args) >= 5 {
+				if k, ok := c.Call.Args[4].(*ssa.Const); ok && k.Value != nil {
+					if obj := p.Object(pkgSPEnum, "BlockRewardBlobber"); obj != nil {
+						if cst, isC := obj.(*types.Const); isC && cst.Val().ExactString() == k.Value.ExactString() {
+							r.Pass("C09.reward-backed", key, p.Pos(c.Pos()), "block reward: accrued by minting, covered by the property's block-reward allowance")
+							continue
+						}
+					}
+				}
+			}
+			v := c.Call.Args[1]
+			if ok, how := backed(v, c); ok {
+				r.Pass("C09.reward-backed", key, p.Pos(c.Pos()), how)
+				continue
+			}
+			// (c) a share of a backed total, or the remainder unit next to such a share
+			okShare := false
+			how := ""
+			if ex, isEx := v.(*ssa.Extract); isEx && ex.Index == 0 {
+				if dc, isC := ex.Tuple.(*ssa.Call); isC && core.CalleeName(dc.Common()) == pkgCurr+".DistributeCoin" {
+					if ok, h := backed(dc.Call.Args[0], c); ok {
+						okShare, how = true, "equal share of an amount "+h
+					}
+				}
+			}
+			if k, isK := core.ConstInt(v); isK && k == 1 {
+				// remainder units: bounded by the remainder of a DistributeCoin of a backed amount
+				for _, b := range fn.Blocks {
+					for _, in := range b.Instrs {
+						dc, isC := in.(*ssa.Call)
+						if !isC || core.CalleeName(dc.Common()) != pkgCurr+".DistributeCoin" {
+							continue
+						}
+						if ok, h := backed(dc.Call.Args[0], c); ok && dc.Block().Dominates(c.Block()) {
+							okShare, how = true, "remainder unit of a DistributeCoin of an amount "+h
+						}
+					}
+				}
+			}
+			if !okShare && how == "" {
+				_, how = backed(v, c)
+			}
+			r.Check(okShare, "C09.reward-backed", key, p.Pos(c.Pos()), "the credited reward has a matching debit: "+how)
+		}
+	}
+	r.Floor("C09.reward-backed", "DistributeRewards calls in the storage contract", n, 8)
+}
+
+// c09ReturnDebited: every call site of fn lets the returned Coin reach a debit (MinusCoin
+// / subtraction stored to a Coin field, a storage-contract callee that takes it, or its
+// own Coin result, followed to its callers).
+func c09ReturnDebited(p *core.Prog, fn *ssa.Function, depth int) (bool, string) {
+	if depth > 3 {
+		return false, "call chain too deep"
+	}
+	nSites := 0
+	for _, caller := range p.FuncsIn(pkgStorage) {
+		if isTooling(p, caller) {
+			continue
+		}
+		for _, f := range withClosures(caller) {
+			for _, c := range findCallsTo(f, fn) {
+				nSites++
+				var start []ssa.Value
+				if fn.Signature.Results().Len() == 1 {
+					start = append(start, c)
+				} else {
+					for _, ref := range *c.Referrers() {
+						if ex, ok := ref.(*ssa.Extract); ok && ex.Index == 0 {
+							start = append(start, ex)
+						}
+					}
+				}
+				consumed := false
+				seen := map[ssa.Value]bool{}
+				work := start
+				for len(work) > 0 && !consumed {
+					v := work[len(work)-1]
+					work = work[:len(work)-1]
+					if seen[v] {
+						continue
+					}
+					seen[v] = true
+					refs := v.Referrers()
+					if refs == nil {
+						continue
+					}
+					for _, ref := range *refs {
+						switch x := ref.(type) {
+						case *ssa.Phi:
+							work = append(work, x)
+						case *ssa.Convert:
+							work = append(work, x)
+						case *ssa.Extract:
+							work = append(work, x)
+						case *ssa.BinOp:
+							if x.Op == token.SUB && x.Y == v {
+								consumed = true
+							}
+							if x.Op == token.ADD {
+								work = append(work, x)
+							}
+						case *ssa.Store:
+							if al, ok := x.Addr.(*ssa.Alloc); ok && x.Val == v {
+								for _, r2 := range *al.Referrers() {
+									if ld, ok := r2.(*ssa.UnOp); ok && ld.Op == token.MUL {
+										work = append(work, ld)
+									}
+								}
+							}
+						case *ssa.Call:
+							name := core.CalleeName(x.Common())
+							switch {
+							case name == pkgCurr+".AddCoin":
+								work = append(work, x)
+							case name == pkgCurr+".MinusCoin" && len(x.Call.Args) == 2 && x.Call.Args[1] == v:
+								consumed = true
+							default:
+								if cal := x.Common().StaticCallee(); cal != nil && cal.Pkg != nil && cal.Pkg.Pkg.Path() == pkgStorage && core.MethodName(x.Common()) != "DistributeRewards" {
+									consumed = true
+								}
+							}
+						case *ssa.Return:
+							if ok, _ := c09ReturnDebited(p, f, depth+1); ok {
+								consumed = true
+							}
+						}
+					}
+				}
+				if !consumed {
+					return false, caller.String() + " at " + p.Pos(c.Pos())
+				}
+			}
+		}
+	}
+	if nSites == 0 {
+		return false, "no caller found"
+	}
+	return true, ""
 }
